@@ -977,6 +977,41 @@ fn seq_and_sites(t: &mut T, _a: &Args) {
     upd_id!("Dr7::update", |x| cpu().dr[7] = x, || cpu().dr[7], Dr7::update(|_| {}), { let f = Dr7::read(); Dr7::write(f) }, pri);
     upd_id!("SFMask::update", |x| cpu().msr_set(MSR_SFMASK, x), || cpu().msr_get(MSR_SFMASK), SFMask::update(|_| {}), { let f = SFMask::read(); SFMask::write(f) }, [0u64, 0x200, 0x4_7fd5]);
     upd_id!("mxcsr::update", |x| cpu().mxcsr = x as u32, || cpu().mxcsr as u64, mxcsr::update(|_| {}), { let f = mxcsr::read(); mxcsr::write(f) }, [0x1f80u64, 0x9fc0 & 0xffbf, 0]);
+    // instruction audit of wrappers that are a single instruction: tiny functions single-stepped, every instruction classified
+    {
+        use crate::audit::audit_tiny;
+        macro_rules! tiny {
+            ($name:literal, $n:expr, |$x:ident| $body:expr) => {{
+                #[inline(never)]
+                fn f($x: u64) -> u64 {
+                    #[allow(unused_unsafe)]
+                    unsafe { $body }
+                }
+                audit_tiny(t.r, "C16", $name, f as usize as u64, $n, || { std::hint::black_box(f(std::hint::black_box(0x28))); });
+            }};
+        }
+        tiny!("Cr0::read_raw", 1, |_x| Cr0::read_raw());
+        tiny!("Cr2::read_raw", 1, |_x| Cr2::read_raw());
+        tiny!("Cr4::read_raw", 1, |_x| Cr4::read_raw());
+        tiny!("Cr0::write_raw", 1, |x| { Cr0::write_raw(x); x });
+        tiny!("Cr4::write_raw", 1, |x| { Cr4::write_raw(x); x });
+        tiny!("Dr7::read_raw", 1, |_x| Dr7::read_raw());
+        tiny!("Dr7::write_raw", 1, |x| { Dr7::write_raw(x); x });
+        tiny!("Dr0::read", 1, |_x| Dr0::read());
+        tiny!("Dr3::write", 1, |x| { Dr3::write(x); x });
+        tiny!("CS::get_reg", 1, |_x| CS::get_reg().0 as u64);
+        tiny!("SS::get_reg", 1, |_x| SS::get_reg().0 as u64);
+        tiny!("DS::set_reg", 1, |x| { DS::set_reg(SegmentSelector(x as u16)); x });
+        tiny!("ES::set_reg", 1, |x| { ES::set_reg(SegmentSelector(x as u16)); x });
+        tiny!("FS::set_reg", 1, |x| { FS::set_reg(SegmentSelector(x as u16)); x });
+        tiny!("GS::set_reg", 1, |x| { GS::set_reg(SegmentSelector(x as u16)); x });
+        tiny!("SS::set_reg", 1, |x| { SS::set_reg(SegmentSelector(x as u16)); x });
+        tiny!("load_tss", 1, |x| { load_tss(SegmentSelector(x as u16)); x });
+        tiny!("FS::read_base", 1, |_x| FS::read_base().as_u64());
+        tiny!("GS::read_base", 1, |_x| GS::read_base().as_u64());
+        tiny!("GS::swap", 1, |x| { GS::swap(); x });
+        tiny!("tlb::flush", 1, |x| { x86_64::instructions::tlb::flush(VirtAddr::new_unsafe(x)); x });
+    }
     let sites: &[(&str, fn(u64, u64, u64) -> u64)] = &[
         ("CS::set_reg", ks_cs), ("SS::set_reg", ks_ss), ("DS::set_reg", ks_ds), ("ES::set_reg", ks_es), ("FS::set_reg", ks_fs), ("GS::set_reg", ks_gs), ("load_tss", ks_tss),
         ("FS::write_base", ks_fsb), ("GS::write_base", ks_gsb), ("Cr0::write_raw", ks_cr0), ("Cr4::write_raw", ks_cr4), ("Dr7::write_raw", ks_dr7), ("Dr0::write", ks_dr0),
